@@ -220,3 +220,57 @@ Theorem ratio_compare_Q : forall mf na da nb db c,
   Z.sgn c = Z.sgn (nval na * nval db - nval nb * nval da).
 Proof. exact ratio_compare_spec. Qed.
 Print Assumptions ratio_compare_Q.
+
+(** subtraction (sexp_sub RAT_RAT with the F-C04-5 repair) and rounding of exact rationals
+    (sexp_ratio_trunc / _floor / _ceiling / _round with the F-C04-6 repair) *)
+From ChibiV Require Import C04.Model6 C04.ProofsRound.
+
+Theorem ratio_sub_Q : forall fuel qf mf na da nb db,
+  wf_num na -> wf_num da -> wf_num nb -> wf_num db -> nval da <> 0 -> nval db <> 0 ->
+  rat_ok (ratio_sub fuel qf mf na da nb db) (nval na * nval db - nval nb * nval da) (nval da * nval db).
+Proof. exact ratio_sub_spec. Qed.
+Print Assumptions ratio_sub_Q.
+
+Theorem truncate_ratio_Q : forall qf mf n d r, wf_num n -> wf_num d ->
+  ratio_trunc qf mf n d = NV r -> nval r = Z.quot (nval n) (nval d).
+Proof. exact ratio_trunc_spec. Qed.
+Print Assumptions truncate_ratio_Q.
+
+Theorem floor_ratio_Q : forall qf mf n d r, wf_num n -> wf_num d -> 0 < nval d -> Z.rem (nval n) (nval d) <> 0 ->
+  ratio_floor qf mf n d = NV r -> nval r = nval n / nval d.
+Proof. exact ratio_floor_spec. Qed.
+Print Assumptions floor_ratio_Q.
+
+Theorem ceiling_ratio_Q : forall qf mf n d r, wf_num n -> wf_num d -> 0 < nval d -> Z.rem (nval n) (nval d) <> 0 ->
+  ratio_ceiling qf mf n d = NV r -> nval r = - ((- nval n) / nval d).
+Proof. exact ratio_ceiling_spec. Qed.
+Print Assumptions ceiling_ratio_Q.
+
+(** round to even: the result is a nearest integer, and the even one on a tie *)
+Theorem round_ratio_Q : forall qf mf n d R, wf_num n -> wf_num d -> canon d ->
+  1 < nval d -> Z.gcd (nval n) (nval d) = 1 ->
+  ratio_round qf mf n d = NV R -> round_ok (nval n) (nval d) (nval R).
+Proof. exact ratio_round_spec. Qed.
+Print Assumptions round_ratio_Q.
+
+Theorem fix_mul_handover : forall mf a b r, wf_num a -> wf_num b -> vm_mul mf a b = Some r ->
+  nval r = nval a * nval b /\ canon r /\ wf_num r.
+Proof. exact vm_mul_spec. Qed.
+Print Assumptions fix_mul_handover.
+
+(** termination where it is cheap: the digit loop of sexp_write_bignum ends within one round per bit *)
+From ChibiV Require Import C04.ProofsTerm.
+Theorem write_bignum_digits_terminates : forall fuel a base, words a -> a <> [] -> 2 <= base < B ->
+  val a < 2 ^ Z.of_nat fuel -> write_bignum_digits fuel a base <> None.
+Proof. exact write_bignum_terminates. Qed.
+Print Assumptions write_bignum_digits_terminates.
+
+(** the models' constants are those of the source tree under check (regenerated on every run) *)
+From ChibiV Require Import C04.ConstsCheck Gen.C04_Consts.
+Theorem constants_match_source :
+  src_fixmax = FIXMAX /\ src_fixmin = FIXMIN /\ src_fixnum_bits = 1
+  /\ src_uint_max = WMAX /\ 2 ^ src_uint_bits = B /\ 2 ^ src_luint_bits = B2 /\ 2 ^ src_half_shift = HALF
+  /\ src_custom_long_longs = 0
+  /\ Z.of_nat (length (read_bignum_digits 0 10 [])) = src_init_bignum_size.
+Proof. exact consts_match. Qed.
+Print Assumptions constants_match_source.
